@@ -116,3 +116,50 @@ Example C08_xattr_clone_sample :
   let '(replies, s) := run pfs pfs_step c08_xattr_clone (init_state pfs (pfs_init true [])) in
   skipn 4 replies = [(EINVAL, 0); (EBADF, 0); (0, 0); (0, 2); (0, 2); (EBADF, 0)] /\ s_nexth pfs s = 2.
 Proof. vm_compute. split; reflexivity. Qed.
+
+(* --- pathB --- *)
+From P9V Require Refs.CoherentDefs Refs.CoherentHist Refs.NotifiedDeep.
+(** C08_coherent against PathFS (Refs/Coherent*.v).  [run_g] runs the history and keeps the ghost list g:
+    g[r] = the inode the File path of fidRef r resolved to at the end of the request that created r
+    (bind time).  [coherent s g]: every live, non-fenced fidRef r (owning its File or, for an xattr fid,
+    borrowing it) has  resolve fs (path_of (file r)) = Some (g[r]).  Sequential histories from the initial
+    state, PathFS as the only writer (B4), any failure injection.
+    PARTIAL: proved for histories made of every request EXCEPT Tremove, Trename, Trenameat
+    ([CoherentHist.covered]): attach, walk (any depth), clone, create, open, clunk, stop, xattrwalk/create,
+    mkdir/mknod/symlink, link, getattr, setattr, readdir, readlink, read/write/fsync, statfs/lock, and
+    Tunlinkat (the victim subtree becomes fenced and drops out of the claim; re-created names are
+    unaffected).  Missing: the rename cases (same/cross directory, subtree, over an existing target) and
+    Tremove (needs "a non-fenced fidRef has a non-fenced parent", i.e. serverB's tree_closed). *)
+Theorem C08_coherent_partial : forall ops wga inj,
+  Forall P9V.Refs.CoherentHist.covered ops ->
+  let r := P9V.Refs.CoherentDefs.run_g ops (init_state pfs (pfs_init wga inj)) [] in
+  P9V.Refs.CoherentDefs.coherent (fst r) (snd r).
+Proof. exact P9V.Refs.CoherentHist.coherent_history_covered. Qed.
+Print Assumptions C08_coherent_partial.
+(** C08_notified, PARTIAL (Refs/NotifiedDeep.v): the part of the statement that concerns the fidRefs BELOW
+    the moved entry, for every state, every backend, every fuel.  The backend calls made by
+    notifyNameChange(origPathNode) are exactly, in this order, one
+    Renamed(File of r, File of r's parent, registered name) for every (r, name) registered (childRefs) in a
+    node at or below origPathNode whose reference count is positive - [NotifiedDeep.tell], the list
+    [NotifiedDeep.below] being characterised by [C08_notified_below_members] - in pre-order: all childRefs
+    of a node before anything of its child nodes, so a fidRef is told after its parent (whose node is the
+    registering node); no other call; nothing but the counts of the told fidRefs (+1, held) changes.
+    Missing for the full C08_notified: (a) level 0 - that the callbacks run by removeWithName tell exactly
+    the live fidRefs registered under the old name (each (File, target File, new name): C08_notified_partial
+    above covers one callback; the interleaved DecRef cascades of the old parents must be shown not to
+    touch the moved subtree, which needs tree_ok + the count invariant); (b) "parent told earlier" as a
+    theorem about positions in the log (needs tree_ok: T_reg, T_live, T_inj). *)
+Theorem C08_notified_below_partial : forall B bstep fuel n held s,
+  let s' := snd (notify_name_change B bstep fuel n (held, s)) in
+  P9V.Refs.NotifiedDeep.calls B s' =
+    P9V.Refs.NotifiedDeep.calls B s ++ flat_map (P9V.Refs.NotifiedDeep.tell B s) (P9V.Refs.NotifiedDeep.below B fuel s n) /\
+  P9V.Refs.NotifiedDeep.frame B s s'.
+Proof. exact P9V.Refs.NotifiedDeep.notified_below. Qed.
+Print Assumptions C08_notified_below_partial.
+
+Theorem C08_notified_below_members : forall B fuel s n e,
+  In e (P9V.Refs.NotifiedDeep.below B fuel s n) <->
+  exists k c, k < fuel /\ P9V.Refs.NotifiedDeep.down B s n c k /\ In e (P9V.Refs.NotifiedDeep.regs_of (get_node B s c)).
+Proof. exact P9V.Refs.NotifiedDeep.in_below. Qed.
+Print Assumptions C08_notified_below_members.
+(* --- end pathB --- *)
